@@ -703,8 +703,11 @@ func c29bCheck(x *vsched.Exec) error {
 						return vsched.Violatef(P+":refused-send-appended", "send %s was answered ErrRouteNotReady but reached the log", tag)
 					}
 				}
-				if !w.cfg.faults && w.conflicts == 0 && !errors.Is(r.Err, channelappend.ErrRouteNotReady) {
-					return vsched.Violatef(P+":send-failed-without-environment-fault", "send %s failed with %v although the appender never failed", tag, r.Err)
+				// Router entry: ErrRouteNotReady is the admission refusal of a stopping group.
+				// Group entry: the batch WAS admitted (SubmitLocal returned a future), so without
+				// an appender failure every error means accepted work was dropped or cancelled.
+				if !w.cfg.faults && w.conflicts == 0 && !(w.cfg.router && errors.Is(r.Err, channelappend.ErrRouteNotReady)) {
+					return vsched.Violatef(P+":admitted-send-failed-without-environment-fault", "send %s failed with %v although the appender never failed", tag, r.Err)
 				}
 				continue
 			}
@@ -917,21 +920,24 @@ func TestVerifC29Group(t *testing.T) {
 	twoChan := [2][][]string{{{"aa", "ab"}}, {{"ba"}, {"bb"}}}
 	if thorough {
 		add("dup", c29bCfg{router: true, scripts: dupRouter, bound: 3})
-		add("dup", c29bCfg{router: true, scripts: dupRouter, advance: 2, effect: 2, bound: 3})
+		add("dup", c29bCfg{router: true, scripts: dupRouter, slow: true, advance: 2, effect: 2, bound: 3})
 		add("dup", c29bCfg{router: true, scripts: dupRouter, faults: true, bound: 3})
-		add("seq", c29bCfg{scripts: seqGroup, bound: 3})
-		add("seq", c29bCfg{scripts: seqGroup, advance: 2, effect: 2, inflight: 2, bound: 3})
-		add("seq", c29bCfg{scripts: seqGroup, faults: true, bound: 3})
-		add("seq", c29bCfg{scripts: seqGroup, coalesce: true, bound: 2})
-		add("seq", c29bCfg{scripts: seqGroup, postCommit: true, bound: 3})
-		add("two", c29bCfg{scripts: twoChan, advance: 2, effect: 2, stop: "stop", bound: 3})
-		add("two", c29bCfg{scripts: twoChan, stop: "stop", gate: 1, bound: 3})
-		add("dup", c29bCfg{router: true, scripts: dupRouter, stop: "stop", gate: 1, bound: 3})
+		add("seq", c29bCfg{scripts: seqGroup, bound: 4})
+		add("seq", c29bCfg{scripts: seqGroup, slow: true, advance: 2, effect: 2, inflight: 2, bound: 4})
+		add("seq", c29bCfg{scripts: seqGroup, slow: true, bound: 4})
+		add("seq", c29bCfg{scripts: seqGroup, faults: true, bound: 4})
+		add("seq", c29bCfg{scripts: seqGroup, slow: true, faults: true, inflight: 2, effect: 2, bound: 3})
+		add("seq", c29bCfg{scripts: seqGroup, coalesce: true, bound: 3})
+		add("seq", c29bCfg{scripts: seqGroup, postCommit: true, slow: true, bound: 3})
+		add("two", c29bCfg{scripts: twoChan, slow: true, advance: 2, effect: 2, stop: "stop", bound: 4})
+		add("two", c29bCfg{scripts: twoChan, stop: "stop", gate: 1, bound: 4})
+		add("dup", c29bCfg{router: true, scripts: dupRouter, slow: true, stop: "stop", gate: 1, bound: 3})
 	} else {
 		add("dup", c29bCfg{router: true, scripts: dupRouter, bound: 2})
-		add("seq", c29bCfg{scripts: seqGroup, advance: 2, effect: 2, inflight: 2, bound: 2})
-		add("seq", c29bCfg{scripts: seqGroup, faults: true, bound: 2})
-		add("two", c29bCfg{scripts: twoChan, stop: "stop", gate: 1, bound: 2})
+		add("dup", c29bCfg{router: true, scripts: dupRouter, slow: true, advance: 2, effect: 2, bound: 2})
+		add("seq", c29bCfg{scripts: seqGroup, slow: true, advance: 2, effect: 2, inflight: 2, bound: 2})
+		add("seq", c29bCfg{scripts: seqGroup, faults: true, bound: 3})
+		add("two", c29bCfg{scripts: twoChan, slow: true, stop: "stop", gate: 1, bound: 2})
 	}
 	c29bRun(t, "C29", cfgs, []string{"append_port_conflicts", "append_port_retry_attempts", "successes_answered_with_an_earlier_message", "successes_with_own_new_message",
 		"exec_with_multi_message_append", "exec_with_concurrent_appends", "ordered_pairs_in_one_batch", "failed_items"}, 500)
@@ -959,16 +965,18 @@ func TestVerifC41Group(t *testing.T) {
 	oneEach := [2][][]string{{{"aa"}, {"ab"}}, {{"ba"}}}
 	if thorough {
 		for _, adv := range []int{1, 2} {
-			add("two", c29bCfg{scripts: twoChan, advance: adv, effect: adv, stop: "stop", bound: 3})
-			add("two", c29bCfg{scripts: twoChan, advance: adv, effect: adv, stop: "stop", gate: 2, postCommit: true, bound: 3})
-			add("two", c29bCfg{scripts: twoChan, advance: adv, effect: adv, stop: "stop-cancelled", gate: 1, bound: 3})
+			add("two", c29bCfg{scripts: twoChan, advance: adv, effect: adv, stop: "stop", bound: 4})
+			add("two", c29bCfg{scripts: twoChan, advance: adv, effect: adv, slow: true, stop: "stop", gate: 2, postCommit: true, bound: 3})
+			add("two", c29bCfg{scripts: twoChan, advance: adv, effect: adv, slow: true, stop: "stop-cancelled", gate: 1, bound: 3})
+			add("two", c29bCfg{scripts: twoChan, advance: adv, effect: adv, slow: true, stop: "stop-timeout", gate: 1, postCommit: true, bound: 3})
 			add("two", c29bCfg{scripts: twoChan, advance: adv, effect: adv, stop: "stop-timeout", gate: 1, bound: 3})
-			add("park-append", c29bCfg{scripts: oneEach, advance: adv, effect: adv, stop: "stop-timeout", parkAppend: true, postCommit: true, bound: 3})
-			add("park-post-commit", c29bCfg{scripts: oneEach, advance: adv, effect: adv, stop: "stop-timeout", parkPersist: true, postCommit: true, bound: 3})
+			add("park-append", c29bCfg{scripts: oneEach, advance: adv, effect: adv, stop: "stop-timeout", parkAppend: true, postCommit: true, bound: 4})
+			add("park-post-commit", c29bCfg{scripts: oneEach, advance: adv, effect: adv, stop: "stop-timeout", parkPersist: true, postCommit: true, bound: 4})
 		}
-		add("router", c29bCfg{router: true, scripts: [2][][]string{{{"aa", "bb"}}, {{"ab", "ba"}}}, stop: "stop", gate: 1, postCommit: true, bound: 3})
+		add("router", c29bCfg{router: true, scripts: [2][][]string{{{"aa", "bb"}}, {{"ab", "ba"}}}, slow: true, stop: "stop", gate: 1, postCommit: true, bound: 3})
 	} else {
-		add("two", c29bCfg{scripts: twoChan, stop: "stop", postCommit: true, bound: 2})
+		add("two", c29bCfg{scripts: twoChan, slow: true, stop: "stop", gate: 1, postCommit: true, bound: 2})
+		add("two", c29bCfg{scripts: twoChan, slow: true, stop: "stop-timeout", gate: 1, bound: 2})
 		add("two", c29bCfg{scripts: twoChan, stop: "stop-cancelled", gate: 1, bound: 2})
 		add("park-append", c29bCfg{scripts: oneEach, stop: "stop-timeout", parkAppend: true, postCommit: true, bound: 2})
 		add("park-post-commit", c29bCfg{scripts: oneEach, advance: 2, effect: 2, stop: "stop-timeout", parkPersist: true, postCommit: true, bound: 2})
